@@ -99,7 +99,9 @@ func FindFunc(name string, pkgs ...*Package) (fi *FuncInfo) {
 			if fi.Export && (fi.Pkg == pkg || pkg.Imports[vname] != nil) {
 				return fi
 			}
-		} else if private || fi.Export || CurrentPackage == fi.Pkg {
+		} else if private || fi.Export || CurrentPackage == fi.Pkg || (fi.Pkg != pkg && pkg.Imports[vname] != nil) {
+			// As with a variable, an imported function does not have to be
+			// exported by its home package.
 			return fi
 		}
 		fi = nil
